@@ -15,6 +15,16 @@ def impl_one(case):
     out = S.call_irving(case["P1"], case["P2"], case["V1"], case["V2"], zero=case.get("zero", True), with_profiles=not case.get("omit", False),
                         rank_dtype=np.float64 if case.get("float_ranks") else np.int64)
     res = {"pairs": out}
+    try:
+        # the public helper that evaluates a matching (c(S) of [ILG1987]); zero-indexed pairs
+        from socialchoicekit.deterministic_matching import Irving
+        from socialchoicekit.profile_utils import IntegerValuationProfile
+        fixer = 0 if case.get("zero", True) else 1
+        zp = [(int(a) - fixer, int(b) - fixer) for a, b in out]
+        res["helper_value"] = int(Irving.stable_matching_value(zp, IntegerValuationProfile.of(np.array(case["V1"], dtype=np.int64)),
+                                                               IntegerValuationProfile.of(np.array(case["V2"], dtype=np.int64))))
+    except Exception as e:  # noqa
+        res["helper_value"] = "exc " + type(e).__name__
     if case.get("stages") and not case.get("omit"):
         try:
             st, nrot = S.irving_stages(case["P1"], case["P2"], case["V1"], case["V2"])
@@ -176,6 +186,9 @@ def judge_brute(R, it, res, opt, val, entry=None):
         R.violation("property_violation", "stable with respect to the ordinal profiles", entry, inp, impl_output=res.get("pairs"),
                     model_output=val, oracle="the model's stableB rejects the output", config=cfg)
         return
+    if "helper_value" in res:
+        # Irving.stable_matching_value is outside the property statement: model coverage only
+        R.glue("helpers:Irving.stable_matching_value", res["helper_value"] == v, {"instance": inp, "pairs": res.get("pairs"), "real": res["helper_value"], "model": v})
     if v != best:
         R.violation("property_violation", "total value is maximal among all stable matchings (model's brute-force optimum)", entry, inp,
                     impl_output=res.get("pairs"), model_output={"optStable": best, "stable_matchings": cnt, "value_of_output": v},
